@@ -6,6 +6,8 @@
      src/autobahn/wamp/request.py    Subscription (id, topic, active, handler, unsubscribe()), Handler,
                                      SubscribeRequest, UnsubscribeRequest
      src/autobahn/wamp/uri.py        @subscribe decorator (object form of subscribe(): one _subscribe per pattern)
+     src/autobahn/wamp/types.py      SubscribeOptions.__init__ (normalisation of details / details_arg), message_attr
+     src/autobahn/wamp/message.py    Subscribe.marshal_options
    The session is taken in its joined state (transport attached, WELCOME processed); joining, GOODBYE and the
    other four request tables belong to other projections (Model/Session*.v).
    Event branch as repaired in /repo 25140640 (a fresh kwargs dict per handler) and e9f79ad0 (the handler list is
@@ -78,9 +80,60 @@ Definition accepts (sg : signature) (nargs : nat) (kw : kwargs) : bool :=
 Definition ill_typed (h : handler) : bool :=
   h_check h && Nat.leb 1 (sg_fixed (h_sig h)) && match h_ann h with Some TStr => true | _ => false end.
 
+(* what the application says about one handler; how details are requested is said through the options *)
+Record hspec := { hs_sig : signature; hs_check : bool; hs_ann : option anntype; hs_beh : behaviour }.
+
+(* ------------------------------------------------------------------ SubscribeOptions *)
+Inductive matchpol := MExact | MPrefix | MWildcard.
+Record subopts := {                        (* the constructor arguments of types.SubscribeOptions *)
+  o_details : option bool;                 (* details=None|False|True *)
+  o_details_arg : option key;              (* details_arg=None|"name" *)
+  o_match : option matchpol;
+  o_get_retained : option bool }.
+
+Definition key_details : key := 3.         (* the keyword "details" *)
+
+(* types.py: assert details is None or (type(details) == bool and details_arg is None) *)
+Definition opts_valid (o : subopts) : bool :=
+  match o_details o, o_details_arg o with Some _, Some _ => false | _, _ => true end.
+
+(* types.py:  if details: self.details_arg = "details"  else: self.details_arg = details_arg *)
+Definition norm_details (o : subopts) : option key :=
+  match o_details o with Some true => Some key_details | _ => o_details_arg o end.
+
+(* protocol.py _subscribe: Handler(fn, obj, options.details_arg if options else None) *)
+Definition handler_details (o : option subopts) : option key :=
+  match o with Some x => norm_details x | None => None end.
+
+(* what the application asked for, from the documentation of SubscribeOptions: details=True -> keyword "details";
+   details_arg="name" -> that keyword; anything else (no options, details=None, details=False) -> no details *)
+Definition requested_details (o : option subopts) : option key :=
+  match o with
+  | None => None
+  | Some x => match o_details x with
+              | Some true => Some key_details
+              | Some false => None
+              | None => o_details_arg x
+              end
+  end.
+
+(* message_attr() then Subscribe.marshal_options(): match is sent unless None/"exact"; get_retained unless None *)
+Definition wire_match (o : option subopts) : option matchpol :=
+  match o with
+  | Some x => match o_match x with Some MExact => None | m => m end
+  | None => None
+  end.
+Definition wire_retained (o : option subopts) : option bool :=
+  match o with Some x => o_get_retained x | None => None end.
+
+Definition mk_handler (obj : bool) (o : option subopts) (sp : hspec) : handler :=
+  {| h_obj := obj; h_details := handler_details o; h_sig := hs_sig sp; h_check := hs_check sp; h_ann := hs_ann sp;
+     h_beh := hs_beh sp |}.
+
 (* ------------------------------------------------------------------ messages, results, outputs *)
 Inductive wmsg :=
-| MSubscribe (request topic : N)                           (* [32, request, {}, topic]  (match="exact" is not marshalled) *)
+| MSubscribe (request topic : N) (m : option matchpol) (retained : option bool)
+                                                          (* [32, request, {match?, get_retained?}, topic] *)
 | MUnsubscribe (request subscription : N).                (* [34, request, subscription] *)
 
 Inductive exn :=
@@ -110,7 +163,7 @@ Inductive out :=
 (* ------------------------------------------------------------------ session state *)
 Record subreq := {                         (* request.SubscribeRequest *)
   sr_topic : N; sr_handler : handler;
-  sr_group : option N }.                   (* on_reply is a member of that txaio.gather, or the user's own future *)
+  sr_group : N }.                          (* the future handed to the application that on_reply feeds (see fut) *)
 Record unsubreq := {                       (* request.UnsubscribeRequest *)
   ur_sub : N;
   ur_obj : N }.                            (* ghost: whose .unsubscribe() returned this on_reply *)
@@ -121,6 +174,12 @@ Record subobj := {                         (* the user's handle on a Subscriptio
   so_held : bool }.                        (* the application has been handed the object: its subscribe() future (or the
                                               gather it belongs to) has completed.  Only then can it call .unsubscribe() *)
 
+(* The future subscribe() returns: on_reply itself (single) or txaio.gather(on_replies) (object form), named by the
+   first request id it covers.  While subscribe() is still running (a reply can arrive from inside transport.send())
+   it is not [sealed]: outcomes are recorded, but the application - which attaches its callbacks once it has the
+   future - sees the completion, and receives the Subscription objects, only when subscribe() has returned. *)
+Record fut := { f_single : bool; f_sealed : bool; f_members : list (N * option result) }.
+
 Record sess := {
   s_transport : bool;                      (* self._transport is not None *)
   s_joined : bool;                         (* self._session_id is not None *)
@@ -129,7 +188,7 @@ Record sess := {
   s_unsubreqs : list (N * unsubreq);       (* self._unsubscribe_reqs *)
   s_subs : list (N * list subent);         (* self._subscriptions: id -> LIST of Subscription *)
   s_objs : list (N * subobj);              (* every Subscription object created so far, by label *)
-  s_gathers : list (N * list (N * option result));   (* pending txaio.gather()s: members and their outcomes *)
+  s_gathers : list (N * fut);              (* futures returned by subscribe() that have not completed for the application *)
   s_ever : list N }.                       (* ghost: subscription ids ever entered into s_subs *)
 
 Definition init : sess :=
@@ -172,22 +231,31 @@ Definition is_rsub (r : result) : bool := match r with RSub _ => true | _ => fal
 Definition handed_over (ms : list (N * option result)) : list N :=
   map fst (filter (fun m => match snd m with Some r => is_rsub r | None => false end) ms).
 
-(* txaio.resolve / txaio.reject on a SubscribeRequest.on_reply.
-   Returns the gathers, the completions observed, and the labels of the Subscription objects the application
-   receives through them. *)
-Definition complete_sub (gs : list (N * list (N * option result))) (rid : N) (rq : subreq) (r : result)
-  : list (N * list (N * option result)) * list out * list N :=
-  match sr_group rq with
-  | None => (gs, [ODone rid r], if is_rsub r then [rid] else [])
-  | Some g =>
-      match lookup g gs with
-      | None => (gs, [], [])
-      | Some ms => let ms' := set_member rid r ms in
-                   match all_done ms' with
-                   | Some rs => (remove_key g gs, [ODoneG g rs], handed_over ms')
-                   | None => (assoc_set g ms' gs, [], [])
-                   end
-      end
+Definition done_out (single : bool) (g : N) (rs : list result) : list out :=
+  if single then match rs with [r] => [ODone g r] | _ => [] end else [ODoneG g rs].
+
+(* the future [g] now has members [ms]: complete it for the application if subscribe() has returned and all are in.
+   Returns the futures, the completion observed, and the labels of the Subscription objects handed over. *)
+Definition settle (gs : list (N * fut)) (g : N) (single sealed : bool) (ms : list (N * option result))
+  : list (N * fut) * list out * list N :=
+  match (if sealed then all_done ms else None) with
+  | Some rs => (remove_key g gs, done_out single g rs, handed_over ms)
+  | None => (assoc_set g {| f_single := single; f_sealed := sealed; f_members := ms |} gs, [], [])
+  end.
+
+(* txaio.resolve / txaio.reject on a SubscribeRequest.on_reply *)
+Definition complete_sub (gs : list (N * fut)) (rid : N) (rq : subreq) (r : result)
+  : list (N * fut) * list out * list N :=
+  match lookup (sr_group rq) gs with
+  | None => (gs, [], [])
+  | Some f => settle gs (sr_group rq) (f_single f) (f_sealed f) (set_member rid r (f_members f))
+  end.
+
+(* subscribe() returns its future to the application *)
+Definition seal (gs : list (N * fut)) (g : N) : list (N * fut) * list out * list N :=
+  match lookup g gs with
+  | None => (gs, [], [])
+  | Some f => settle gs g (f_single f) true (f_members f)
   end.
 
 Fixpoint hold (ls : list N) (objs : list (N * subobj)) : list (N * subobj) :=
@@ -196,46 +264,6 @@ Fixpoint hold (ls : list N) (objs : list (N * subobj)) : list (N * subobj) :=
   | (l, o) :: r => (l, if memN l ls then {| so_id := so_id o; so_active := so_active o; so_held := true |} else o)
                    :: hold ls r
   end.
-
-(* ------------------------------------------------------------------ subscribe() *)
-(* protocol.py: _subscribe(obj, fn, topic, options, check_types) *)
-Definition do_subscribe (s : sess) (h : handler) (topic : N) (grp : option N) : sess * list out :=
-  let rid := s_next s + 1 in                                   (* self._request_id_gen.next() *)
-  ({| s_transport := s_transport s; s_joined := s_joined s; s_next := rid;
-      s_subreqs := s_subreqs s ++ [(rid, {| sr_topic := topic; sr_handler := h; sr_group := grp |})];
-      s_unsubreqs := s_unsubreqs s; s_subs := s_subs s; s_objs := s_objs s;
-      s_gathers := s_gathers s; s_ever := s_ever s |},
-   [OSent (MSubscribe rid topic)]).
-
-(* subscribe(callable, topic, options) *)
-Definition api_subscribe (s : sess) (h : handler) (topic : N) : sess * list out :=
-  if negb (s_transport s) then (s, [ORaised ETransportLost])
-  else do_subscribe s h topic None.
-
-Fixpoint subscribe_all (s : sess) (g : N) (ms : list (handler * N)) : sess * list out :=
-  match ms with
-  | [] => (s, [])
-  | (h, t) :: r => let '(s1, o1) := do_subscribe s h t (Some g) in
-                   let '(s2, o2) := subscribe_all s1 g r in (s2, o1 ++ o2)
-  end.
-
-Fixpoint member_ids (first : N) (ms : list (handler * N)) : list (N * option result) :=
-  match ms with [] => [] | _ :: r => (first, None) :: member_ids (first + 1) r end.
-
-(* subscribe(object): one _subscribe per decorated method (inspect.getmembers order), txaio.gather of the replies.
-   The gather is identified by the first request id it allocates. *)
-Definition api_subscribe_obj (s : sess) (ms : list (handler * N)) : sess * list out :=
-  if negb (s_transport s) then (s, [ORaised ETransportLost])
-  else
-    let g := s_next s + 1 in
-    match ms with
-    | [] => (s, [ODoneG g []])                                    (* gather([]) is already complete *)
-    | _ =>
-      let '(s1, o1) := subscribe_all s g ms in
-      ({| s_transport := s_transport s1; s_joined := s_joined s1; s_next := s_next s1;
-          s_subreqs := s_subreqs s1; s_unsubreqs := s_unsubreqs s1; s_subs := s_subs s1; s_objs := s_objs s1;
-          s_gathers := s_gathers s1 ++ [(g, member_ids g ms)]; s_ever := s_ever s1 |}, o1)
-    end.
 
 (* ------------------------------------------------------------------ Subscription.unsubscribe() / _unsubscribe *)
 Definition has_label (l : N) (lst : list subent) : bool := existsb (fun e => se_label e =? l) lst.
@@ -323,6 +351,10 @@ Definition invoke (s : sess) (e : subent) (args : list Z) (kw : kwargs) : sess *
       (s1, OInvoke l (h_obj h) args kw true :: o1 ++ match x with Some ex => [OUserError l ex] | None => [] end)
   end.
 
+Definition set_objs (s : sess) (objs : list (N * subobj)) : sess :=
+  {| s_transport := s_transport s; s_joined := s_joined s; s_next := s_next s; s_subreqs := s_subreqs s;
+     s_unsubreqs := s_unsubreqs s; s_subs := s_subs s; s_objs := objs; s_gathers := s_gathers s; s_ever := s_ever s |}.
+
 (* subscription.active as the dispatch loop reads it.  A listed Subscription always has its object (invariant
    inv_att of Proofs/SessionSubProofs.v); the None branch is not reachable and is resolved to "skip". *)
 Definition is_active (s : sess) (l : N) : bool :=
@@ -338,8 +370,12 @@ Definition deferred (fl : flavour) (e : subent) : bool :=
   match fl with Tx => false | Aio => h_check (se_handler e) end.
 
 Inductive item :=
-| INow (o : out)                           (* produced while the dispatch loop runs *)
-| ILater (e : subent).                     (* a Task created for this entry; its body runs after the loop *)
+| INow (o : out)                           (* produced inside the call *)
+| ISoon (o : out)                          (* asyncio: a callback the application attaches to a future that is already
+                                              complete when subscribe() returns it: first loop turn after the call *)
+| ILater (e : subent) (ev : event)         (* a Task created for this entry and event; its body runs after the call *)
+| IHold (second : bool) (ls : list N).     (* asyncio: the callback that hands these Subscription objects to the
+                                              application runs in the first / second loop turn after the call *)
 
 (* for subscription in list(self._subscriptions[msg.subscription]):      -- a SNAPSHOT taken when the event arrives
        if not subscription.active: continue                              -- unsubscribed by an earlier handler of this event
@@ -350,7 +386,7 @@ Fixpoint deliver (fl : flavour) (snap : list subent) (ev : event) (s : sess) : s
   | e :: r =>
     if is_active s (se_label e) then
       if deferred fl e then
-        let '(s2, i2) := deliver fl r ev s in (s2, ILater e :: i2)
+        let '(s2, i2) := deliver fl r ev s in (s2, ILater e ev :: i2)
       else
         let '(s1, o1) := invoke s e (e_args ev) (build_kwargs e ev) in
         let '(s2, i2) := deliver fl r ev s1 in
@@ -362,33 +398,39 @@ Definition is_immediate (o : out) : bool :=
   match o with OSent _ | OInvoke _ _ _ _ _ | ORaised _ => true | _ => false end.
 Definition is_gather (o : out) : bool := match o with ODoneG _ _ => true | _ => false end.
 
-(* the loop turns after the dispatch (asyncio), in call_soon order.  g1 = first turn: callbacks of the futures the
-   loop left behind (onUserError of a failed handler, completion of an unsubscribe future) and the Tasks' first steps
-   (handler body: its call, the messages it sends); g2 = second turn: callbacks scheduled by the Tasks. *)
-Fixpoint run_items (ev : event) (s : sess) (its : list item) : sess * list out * list out * list out :=
+(* asyncio: the loop turns after the call, in call_soon order.  g0 = what happened inside the call; g1 = first turn:
+   callbacks of the futures completed inside the call (onUserError of a failed handler, completions seen by the
+   application) and the Tasks' first steps (handler body: its call, the messages it sends); g2 = second turn: callbacks
+   scheduled by the first (a gather's completion, what the Tasks leave behind). *)
+Fixpoint run_items (s : sess) (its : list item) : sess * list out * list out * list out * list N :=
   match its with
-  | [] => (s, [], [], [])
+  | [] => (s, [], [], [], [])
   | INow o :: r =>
-      let '(s2, g0, g1, g2) := run_items ev s r in
-      if is_immediate o then (s2, o :: g0, g1, g2) else (s2, g0, o :: g1, g2)
-  | ILater e :: r =>
+      let '(s2, g0, g1, g2, h2) := run_items s r in
+      if is_immediate o then (s2, o :: g0, g1, g2, h2)
+      else if is_gather o then (s2, g0, g1, o :: g2, h2) else (s2, g0, o :: g1, g2, h2)
+  | ISoon o :: r =>
+      let '(s2, g0, g1, g2, h2) := run_items s r in (s2, g0, o :: g1, g2, h2)
+  | ILater e ev :: r =>
       let '(s1, o1) := invoke s e (e_args ev) (build_kwargs e ev) in
-      let '(s2, g0, g1, g2) := run_items ev s1 r in
-      (s2, g0, filter is_immediate o1 ++ g1, filter (fun o => negb (is_immediate o)) o1 ++ g2)
+      let '(s2, g0, g1, g2, h2) := run_items s1 r in
+      (s2, g0, filter is_immediate o1 ++ g1, filter (fun o => negb (is_immediate o)) o1 ++ g2, h2)
+  | IHold false ls :: r => run_items (set_objs s (hold ls (s_objs s))) r
+  | IHold true ls :: r =>
+      let '(s2, g0, g1, g2, h2) := run_items s r in (s2, g0, g1, g2, ls ++ h2)
   end.
 
 Fixpoint now_outs (its : list item) : list out :=
-  match its with [] => [] | INow o :: r => o :: now_outs r | ILater _ :: r => now_outs r end.
+  match its with
+  | [] => []
+  | INow o :: r | ISoon o :: r => o :: now_outs r
+  | ILater _ _ :: r | IHold _ _ :: r => now_outs r
+  end.
 
-Definition on_event (fl : flavour) (s : sess) (ev : event) : sess * list out :=
+Definition on_event (fl : flavour) (s : sess) (ev : event) : sess * list item :=
   match lookup (e_sub ev) (s_subs s) with
-  | Some lst =>                                                    (* if msg.subscription in self._subscriptions *)
-      let '(s1, its) := deliver fl lst ev s in
-      match fl with
-      | Tx => (s1, now_outs its)                                   (* nothing is deferred: program order *)
-      | Aio => let '(s2, g0, g1, g2) := run_items ev s1 its in (s2, g0 ++ g1 ++ g2)
-      end
-  | None => (s, [ORaised EProtocolError])                         (* EVENT received for non-subscribed subscription ID *)
+  | Some lst => deliver fl lst ev s                               (* if msg.subscription in self._subscriptions *)
+  | None => (s, [INow (ORaised EProtocolError)])                  (* EVENT received for non-subscribed subscription ID *)
   end.
 
 (* ------------------------------------------------------------------ SUBSCRIBED / UNSUBSCRIBED / ERROR *)
@@ -398,17 +440,20 @@ Definition append_sub (sid : N) (e : subent) (subs : list (N * list subent)) :=
   | None => subs ++ [(sid, [e])]
   end.
 
-Definition on_subscribed (s : sess) (req sid : N) : sess * list out :=
+(* [now]: the application's callbacks on a completed future run at once (Twisted) - it holds the Subscription objects
+   immediately; otherwise (asyncio) they run in a later loop turn and the labels are returned for that moment *)
+Definition on_subscribed (now : bool) (s : sess) (req sid : N) : sess * list out * list N :=
   match lookup req (s_subreqs s) with
-  | None => (s, [ORaised EProtocolError])                         (* SUBSCRIBED received for non-pending request ID *)
+  | None => (s, [ORaised EProtocolError], [])                     (* SUBSCRIBED received for non-pending request ID *)
   | Some rq =>
       let e := {| se_label := req; se_topic := sr_topic rq; se_handler := sr_handler rq |} in
       let '(gs, o, hs) := complete_sub (s_gathers s) req rq (RSub sid) in
       ({| s_transport := s_transport s; s_joined := s_joined s; s_next := s_next s;
           s_subreqs := remove_key req (s_subreqs s); s_unsubreqs := s_unsubreqs s;
           s_subs := append_sub sid e (s_subs s);
-          s_objs := hold hs (s_objs s ++ [(req, {| so_id := sid; so_active := true; so_held := false |})]);
-          s_gathers := gs; s_ever := sid :: s_ever s |}, o)
+          s_objs := hold (if now then hs else [])
+                         (s_objs s ++ [(req, {| so_id := sid; so_active := true; so_held := false |})]);
+          s_gathers := gs; s_ever := sid :: s_ever s |}, o, hs)
   end.
 
 Fixpoint deactivate (ls : list N) (objs : list (N * subobj)) : list (N * subobj) :=
@@ -432,30 +477,30 @@ Definition on_unsubscribed (s : sess) (req : N) : sess * list out :=
        [ODoneU (ur_obj rq) (RNum 0)])
   end.
 
-Definition on_error (s : sess) (rtype req uri : N) : sess * list out :=
+Definition on_error (now : bool) (s : sess) (rtype req uri : N) : sess * list out * list N :=
   if (rtype =? 32) then
     match lookup req (s_subreqs s) with
     | Some rq =>
         let '(gs, o, hs) := complete_sub (s_gathers s) req rq (RErr (EAppError uri)) in
         ({| s_transport := s_transport s; s_joined := s_joined s; s_next := s_next s;
             s_subreqs := remove_key req (s_subreqs s); s_unsubreqs := s_unsubreqs s; s_subs := s_subs s;
-            s_objs := hold hs (s_objs s); s_gathers := gs; s_ever := s_ever s |}, o)
-    | None => (s, [ORaised EProtocolError])
+            s_objs := hold (if now then hs else []) (s_objs s); s_gathers := gs; s_ever := s_ever s |}, o, hs)
+    | None => (s, [ORaised EProtocolError], [])
     end
   else if (rtype =? 34) then
     match lookup req (s_unsubreqs s) with
     | Some rq =>
         ({| s_transport := s_transport s; s_joined := s_joined s; s_next := s_next s; s_subreqs := s_subreqs s;
             s_unsubreqs := remove_key req (s_unsubreqs s); s_subs := s_subs s; s_objs := s_objs s;
-            s_gathers := s_gathers s; s_ever := s_ever s |}, [ODoneU (ur_obj rq) (RErr (EAppError uri))])
-    | None => (s, [ORaised EProtocolError])
+            s_gathers := s_gathers s; s_ever := s_ever s |}, [ODoneU (ur_obj rq) (RErr (EAppError uri))], [])
+    | None => (s, [ORaised EProtocolError], [])
     end
-  else (s, [ORaised EProtocolError]).         (* the other request tables are empty in this projection *)
+  else (s, [ORaised EProtocolError], []).     (* the other request tables are empty in this projection *)
 
 (* ------------------------------------------------------------------ transport loss *)
 (* onClose: _transport = None; if joined: onLeave -> _errback_outstanding_requests(ApplicationError(transport_lost)) *)
-Fixpoint reject_subs (gs : list (N * list (N * option result))) (rqs : list (N * subreq))
-  : list (N * list (N * option result)) * list out * list N :=
+Fixpoint reject_subs (gs : list (N * fut)) (rqs : list (N * subreq))
+  : list (N * fut) * list out * list N :=
   match rqs with
   | [] => (gs, [], [])
   | (rid, rq) :: r => let '(gs1, o1, h1) := complete_sub gs rid rq (RErr EClosed) in
@@ -473,40 +518,185 @@ Definition on_lose (s : sess) : sess * list out :=
         s_unsubreqs := s_unsubreqs s; s_subs := s_subs s; s_objs := s_objs s; s_gathers := s_gathers s;
         s_ever := s_ever s |}, []).
 
-(* ------------------------------------------------------------------ operations *)
-Inductive op :=
-| OpSubscribe (h : handler) (topic : N)          (* session.subscribe(fn, topic, options) *)
-| OpSubscribeObj (ms : list (handler * N))       (* session.subscribe(obj): decorated methods with their topics *)
-| OpUnsubscribe (label : N)                      (* Subscription(label).unsubscribe() called by the application *)
-| OpSubscribed (request subscription : N)        (* onMessage([33, request, subscription]) *)
-| OpUnsubscribed (request : N)                   (* onMessage([35, request]) *)
-| OpRevoked (subscription : N)                   (* onMessage([35, 0, {"subscription": id}])  router revocation *)
-| OpError (rtype request uri : N)                (* onMessage([8, rtype, request, {}, uri]) *)
-| OpEvent (ev : event)                           (* onMessage([36, sub, pub, details, args, kwargs]) *)
-| OpLose.                                        (* transport lost: onClose(False) *)
+(* ------------------------------------------------------------------ messages; replies delivered inside send() *)
+Inductive msg :=
+| MsgSubscribed (request subscription : N)       (* [33, request, subscription] *)
+| MsgUnsubscribed (request : N)                  (* [35, request] *)
+| MsgRevoked (subscription : N)                  (* [35, 0, {"subscription": id}]  router revocation *)
+| MsgError (rtype request uri : N)               (* [8, rtype, request, {}, uri] *)
+| MsgEvent (ev : event).                         (* [36, sub, pub, details, args, kwargs] *)
 
-Definition is_message (o : op) : bool :=
-  match o with OpSubscribe _ _ | OpSubscribeObj _ | OpUnsubscribe _ | OpLose => false | _ => true end.
+Definition is_tx (fl : flavour) : bool := match fl with Tx => true | Aio => false end.
+(* asyncio: when the application's callback on the completed future (a gather's: one turn later) hands the objects over *)
+Definition hold_items (fl : flavour) (o : list out) (hs : list N) : list item :=
+  match fl with Tx => [] | Aio => [IHold (existsb is_gather o) hs] end.
 
-Definition is_event (o : op) : bool := match o with OpEvent _ => true | _ => false end.
-
-(* outputs in Twisted order, except for EVENT whose outputs already come in the flavour's order *)
-Definition step_core (fl : flavour) (s : sess) (o : op) : sess * list out :=
-  if is_message o && negb (s_joined s) then (s, [ORaised EProtocolError])    (* session is not yet established *)
-  else match o with
-  | OpSubscribe h t => api_subscribe s h t
-  | OpSubscribeObj ms => api_subscribe_obj s ms
-  | OpUnsubscribe l => api_unsubscribe s l
-  | OpSubscribed r sid => on_subscribed s r sid
-  | OpUnsubscribed r => on_unsubscribed s r
-  | OpRevoked _ => on_unsubscribed s 0                            (* msg.request == 0 is looked up like any other id *)
-  | OpError rt r u => on_error s rt r u
-  | OpEvent ev => on_event fl s ev
-  | OpLose => on_lose s
+(* ApplicationSession.onMessage *)
+Definition on_message (fl : flavour) (s : sess) (m : msg) : sess * list item :=
+  if negb (s_joined s) then (s, [INow (ORaised EProtocolError)])      (* session is not yet established *)
+  else match m with
+  | MsgSubscribed r sid => let '(s1, o, hs) := on_subscribed (is_tx fl) s r sid in (s1, map INow o ++ hold_items fl o hs)
+  | MsgUnsubscribed r => let '(s1, o) := on_unsubscribed s r in (s1, map INow o)
+  | MsgRevoked _ => let '(s1, o) := on_unsubscribed s 0 in (s1, map INow o)   (* request 0 is looked up like any id *)
+  | MsgError rt r u => let '(s1, o, hs) := on_error (is_tx fl) s rt r u in (s1, map INow o ++ hold_items fl o hs)
+  | MsgEvent ev => on_event fl s ev
   end.
 
-(* asyncio, operations other than EVENT: first what happens inside the call, then the callbacks of the futures
-   completed by the operation, then those of gathers *)
+(* an in-process / loopback transport hands the router's answers to onMessage before transport.send() returns;
+   an exception leaving onMessage there is the transport's to report, the next message is delivered all the same *)
+Fixpoint run_inline (fl : flavour) (s : sess) (ms : list msg) : sess * list item :=
+  match ms with
+  | [] => (s, [])
+  | m :: r => let '(s1, i1) := on_message fl s m in
+              let '(s2, i2) := run_inline fl s1 r in (s2, i1 ++ i2)
+  end.
+
+(* ------------------------------------------------------------------ subscribe() *)
+(* request_id = self._request_id_gen.next(); self._subscribe_reqs[request_id] = SubscribeRequest(...) *)
+Definition record_sub (s : sess) (h : handler) (topic g : N) : sess :=
+  let rid := s_next s + 1 in
+  {| s_transport := s_transport s; s_joined := s_joined s; s_next := rid;
+     s_subreqs := s_subreqs s ++ [(rid, {| sr_topic := topic; sr_handler := h; sr_group := g |})];
+     s_unsubreqs := s_unsubreqs s; s_subs := s_subs s; s_objs := s_objs s;
+     s_gathers := s_gathers s; s_ever := s_ever s |}.
+
+(* protocol.py _subscribe(obj, fn, topic, options, check_types): the request is recorded, THEN the message is sent;
+   [rin] is what the transport delivers from inside that send() *)
+Definition do_subscribe (fl : flavour) (s : sess) (h : handler) (o : option subopts) (topic g : N) (rin : list msg)
+  : sess * list item :=
+  let '(s2, i2) := run_inline fl (record_sub s h topic g) rin in
+  (s2, INow (OSent (MSubscribe (s_next s + 1) topic (wire_match o) (wire_retained o))) :: i2).
+
+Definition set_gathers (s : sess) (gs : list (N * fut)) (objs : list (N * subobj)) : sess :=
+  {| s_transport := s_transport s; s_joined := s_joined s; s_next := s_next s; s_subreqs := s_subreqs s;
+     s_unsubreqs := s_unsubreqs s; s_subs := s_subs s; s_objs := objs; s_gathers := gs; s_ever := s_ever s |}.
+
+(* subscribe() returns: the application gets the future (and whatever it already holds) *)
+Definition return_future (fl : flavour) (s : sess) (g : N) : sess * list item :=
+  let '(gs, o, hs) := seal (s_gathers s) g in
+  match fl with
+  | Tx => (set_gathers s gs (hold hs (s_objs s)), map INow o)     (* callbacks on a fired Deferred run at once *)
+  | Aio => (set_gathers s gs (s_objs s), map ISoon o ++ [IHold false hs])
+  end.
+
+Definition opts_ok (o : option subopts) : bool := match o with Some x => opts_valid x | None => true end.
+
+(* subscribe(callable, topic, options) *)
+Definition api_subscribe (fl : flavour) (s : sess) (sp : hspec) (o : option subopts) (topic : N) (rin : list msg)
+  : sess * list item :=
+  if negb (opts_ok o) then (s, [INow (ORaised EAssertion)])     (* SubscribeOptions(...) itself raises *)
+  else if negb (s_transport s) then (s, [INow (ORaised ETransportLost)])
+  else
+    let g := s_next s + 1 in
+    let s0 := set_gathers s (s_gathers s ++ [(g, {| f_single := true; f_sealed := false; f_members := [(g, None)] |})])
+                          (s_objs s) in
+    let '(s1, i1) := do_subscribe fl s0 (mk_handler false o sp) o topic g rin in
+    let '(s2, i2) := return_future fl s1 g in
+    (s2, i1 ++ i2).
+
+(* one decorated method: its own options (decorator), the topic, what the transport delivers inside its send() *)
+Definition method := (hspec * option subopts * N * list msg)%type.
+
+(* subopts = pat.options or options; if None: SubscribeOptions(match="exact")   (exact URIs only in this projection) *)
+Definition method_opts (call : option subopts) (own : option subopts) : option subopts :=
+  match own with
+  | Some x => Some x
+  | None => match call with
+            | Some x => Some x
+            | None => Some {| o_details := None; o_details_arg := None; o_match := Some MExact; o_get_retained := None |}
+            end
+  end.
+
+Fixpoint subscribe_all (fl : flavour) (s : sess) (g : N) (call : option subopts) (ms : list method) : sess * list item :=
+  match ms with
+  | [] => (s, [])
+  | (sp, own, t, rin) :: r =>
+      let o := method_opts call own in
+      let '(s1, i1) := do_subscribe fl s (mk_handler true o sp) o t g rin in
+      let '(s2, i2) := subscribe_all fl s1 g call r in (s2, i1 ++ i2)
+  end.
+
+Fixpoint member_ids (first : N) (ms : list method) : list (N * option result) :=
+  match ms with [] => [] | _ :: r => (first, None) :: member_ids (first + 1) r end.
+
+Definition methods_ok (call : option subopts) (ms : list method) : bool :=
+  opts_ok call && forallb (fun m => opts_ok (snd (fst (fst m)))) ms.
+
+(* subscribe(object, options=call): one _subscribe per decorated method (inspect.getmembers order), then
+   txaio.gather(on_replies).  The gather is named by the first request id it covers. *)
+Definition api_subscribe_obj (fl : flavour) (s : sess) (ms : list method) (call : option subopts) : sess * list item :=
+  if negb (methods_ok call ms) then (s, [INow (ORaised EAssertion)])
+  else if negb (s_transport s) then (s, [INow (ORaised ETransportLost)])
+  else
+    let g := s_next s + 1 in
+    let s0 := set_gathers s (s_gathers s ++ [(g, {| f_single := false; f_sealed := false; f_members := member_ids g ms |})])
+                          (s_objs s) in
+    let '(s1, i1) := subscribe_all fl s0 g call ms in
+    let '(s2, i2) := return_future fl s1 g in
+    (s2, i1 ++ i2).
+
+(* ------------------------------------------------------------------ unsubscribe() called by the application *)
+Definition is_done_u (l : N) (it : item) : bool :=
+  match it with INow (ODoneU l' _) => l' =? l | _ => false end.
+
+(* _unsubscribe records the request and sends last; an UNSUBSCRIBED / ERROR delivered from inside that send() completes
+   on_reply before the application has it: its callback runs when unsubscribe() has returned *)
+Definition api_unsubscribe_inl (fl : flavour) (s : sess) (l : N) (rin : list msg) : sess * list item :=
+  let '(s1, o1) := api_unsubscribe s l in
+  match o1 with
+  | [OSent (MUnsubscribe _ _)] =>
+      let '(s2, i2) := run_inline fl s1 rin in
+      (s2, map INow o1 ++ filter (fun it => negb (is_done_u l it)) i2 ++ filter (is_done_u l) i2)
+  | _ => (s1, map INow o1)
+  end.
+
+(* ------------------------------------------------------------------ operations *)
+Inductive op :=
+| OpSubscribe (sp : hspec) (o : option subopts) (topic : N) (rin : list msg)
+                                                 (* session.subscribe(fn, topic, options, check_types) *)
+| OpSubscribeObj (ms : list method) (call : option subopts)
+                                                 (* session.subscribe(obj, options=call) *)
+| OpUnsubscribe (label : N) (rin : list msg)     (* Subscription(label).unsubscribe() called by the application *)
+| OpSubscribed (request subscription : N)        (* onMessage(...) from the network, after the call has returned *)
+| OpUnsubscribed (request : N)
+| OpRevoked (subscription : N)
+| OpError (rtype request uri : N)
+| OpEvent (ev : event)
+| OpLose.                                        (* transport lost: onClose(False) *)
+
+Definition as_msg (o : op) : option msg :=
+  match o with
+  | OpSubscribed r sid => Some (MsgSubscribed r sid)
+  | OpUnsubscribed r => Some (MsgUnsubscribed r)
+  | OpRevoked sid => Some (MsgRevoked sid)
+  | OpError rt r u => Some (MsgError rt r u)
+  | OpEvent ev => Some (MsgEvent ev)
+  | _ => None
+  end.
+
+(* what happens inside the call *)
+Definition step_items (fl : flavour) (s : sess) (o : op) : sess * list item :=
+  match o with
+  | OpSubscribe sp opts t rin => api_subscribe fl s sp opts t rin
+  | OpSubscribeObj ms call => api_subscribe_obj fl s ms call
+  | OpUnsubscribe l rin => api_unsubscribe_inl fl s l rin
+  | OpSubscribed r sid => on_message fl s (MsgSubscribed r sid)
+  | OpUnsubscribed r => on_message fl s (MsgUnsubscribed r)
+  | OpRevoked sid => on_message fl s (MsgRevoked sid)
+  | OpError rt r u => on_message fl s (MsgError rt r u)
+  | OpEvent ev => on_message fl s (MsgEvent ev)
+  | OpLose => let '(s1, o1) := on_lose s in (s1, map INow o1)
+  end.
+
+(* Twisted: everything happened inside the call, in program order (nothing is ever deferred).
+   asyncio: then the loop runs until it is idle. *)
+Definition finalize (fl : flavour) (s : sess) (its : list item) : sess * list out :=
+  match fl with
+  | Tx => (s, now_outs its)
+  | Aio => let '(s2, g0, g1, g2, h2) := run_items s its in (set_objs s2 (hold h2 (s_objs s2)), g0 ++ g1 ++ g2)
+  end.
+
+(* asyncio order of a call that created no Task *)
 Definition order (fl : flavour) (os : list out) : list out :=
   match fl with
   | Tx => os
@@ -516,7 +706,7 @@ Definition order (fl : flavour) (os : list out) : list out :=
   end.
 
 Definition step (fl : flavour) (s : sess) (o : op) : sess * list out :=
-  let '(s', os) := step_core fl s o in (s', if is_event o then os else order fl os).
+  let '(s1, its) := step_items fl s o in finalize fl s1 its.
 
 Fixpoint run (fl : flavour) (s : sess) (ops : list op) : sess * list (list out) :=
   match ops with
